@@ -333,6 +333,7 @@ type fakeLog struct {
 	attempts map[int64]int
 	reqs     []reqEvent
 	sthReqs  int
+	served   int64 // entries handed out in complete or prefix answers
 	other    int
 }
 
@@ -403,6 +404,7 @@ func (f *fakeLog) ServeHTTP(w http.ResponseWriter, r *http.Request) {
 	}
 	if beh == bFull || beh == bPrefix {
 		ev.returned = int(to - start + 1)
+		f.served += to - start + 1
 	}
 	f.reqs = append(f.reqs, ev)
 	f.mu.Unlock()
